@@ -1,0 +1,8 @@
+//go:build !verif
+
+package streams
+
+// verifYield marks the atomic actions of Stdin for the verification harness
+// (see verif_hook.go). Without the `verif` build tag it is an empty function
+// that the compiler inlines away.
+func verifYield(*Stdin, string) {}
